@@ -87,7 +87,7 @@ namespace {
           op["extlib"] = J(plan.chance(400));
           occupied[s] = true;
         } else {
-          const int kind = int(plan.below(26));
+          const int kind = int(plan.below(28));
           switch (kind) {
           case 0:
           case 1:
@@ -152,6 +152,13 @@ namespace {
             // one extension Module owned by the embedder for the whole run, added to engines as they come and go
             op["k"] = J(plan.chance(450) ? "addmod" : "callmod");
             break;
+          case 26:
+          case 27:
+            // one syntax tree, parsed once by the embedder, evaluated in whichever engine this operation names: what it
+            // calls and reads (through a lambda without captures, through a plain call) belongs to THAT engine
+            op["k"] = J("tree");
+            op["i"] = J(int(plan.below(4)));
+            break;
           case 21:
             op["k"] = J("loopfn");
             op["n"] = J(int(plan.range(1, 4)));
@@ -184,6 +191,13 @@ namespace {
       // the same thread and lets it use the same file, nested inside the first engine's use()
       write_file(dir + "lib.chai", "bump();\nnested_hook();\ndef from_lib(x) { x + 5000 }\n");
 
+      // syntax trees shared by every engine of the run (parsed by an engine that evaluates nothing and outlives the others)
+      auto tree_parser = make_engine();
+      const char *tree_src[4] = {"fun() { return fn0(0) }()", "fun() { return gl0 }()", "fn1(0)", "fun() { var tl = fun() { return fn0(0) }; return tl() + tl() - tl() }()"};
+      AST_NodePtr trees[4];
+      for (int i = 0; i < 4; ++i) {
+        trees[i] = tree_parser->parse(tree_src[i]);
+      }
       Engine *eng[N_SLOTS] = {nullptr, nullptr, nullptr, nullptr, nullptr};
       GenModel model[N_SLOTS];
       std::atomic<int> gen_counter{0}; // creations on different slots are not ordered with each other
@@ -528,6 +542,22 @@ namespace {
                 } else {
                   out = eval_show(e, "get_var_attr(" + x + ", \"mark\").is_var_undef() ? 0 : get_var_attr(" + x + ", \"mark\")");
                   expect("=i:0");
+                }
+              } else if (k == "tree") {
+                const int i = int(op.at("i").num()) % 4;
+                try {
+                  out = "=" + show(e.eval(*trees[i]), &e);
+                } catch (...) {
+                  out = "!" + describe_current_exception(&e);
+                }
+                cnt[size_t(a)]["probe_shared_tree_evaluated"] += 1;
+                const int fn = (i == 2) ? 1 : 0;
+                if (i == 1) {
+                  if (m.globs.count(0) ? out != "=i:" + std::to_string(m.globs[0]) : (out[0] != '!' || out.find("Can not find object: gl0") == std::string::npos)) {
+                    bad(oi, "foreign-or-wrong-value", "shared tree '" + std::string(tree_src[i]) + "' gave " + out + ", model of generation " + std::to_string(m.gen) + " has gl0 " + (m.globs.count(0) ? std::to_string(m.globs[0]) : std::string("absent")));
+                  }
+                } else if (m.fns.count(fn) ? out != "=i:" + std::to_string(m.fns[fn]) : (out[0] != '!' || out.find("Can not find object: fn" + std::to_string(fn)) == std::string::npos)) {
+                  bad(oi, "foreign-or-wrong-value", "shared tree '" + std::string(tree_src[i]) + "' gave " + out + ", model of generation " + std::to_string(m.gen) + " has fn" + std::to_string(fn) + " " + (m.fns.count(fn) ? std::to_string(m.fns[fn]) : std::string("absent")));
                 }
               } else if (k == "loopfn") {
                 // a fresh function scope with locals: must not see top-level locals of other generations
